@@ -15,7 +15,7 @@
                                 `adjoint_cat` and the derivative of a `Cat` both decompose over the *list*
                                 of occurrences of the leaf among the parts (multiplicity counts)
     plate_zero_witness, plate_zero_not_good, add_broadcast_prefix_witness, subs_free_root_var_witness,
-    cat_repeated_part_witness
+    cat_repeated_part_witness, cat_ragged_witness
                                 concrete inputs: the hypotheses `Good` places on ⊗-reductions and on ⊕
                                 cannot be dropped; a dict keyed by the part would lose occurrences
     examples                    `Good` (incl. `SubsOK`, `Cat`), `PtOK`, `WFL`, the division hypothesis are
@@ -1337,9 +1337,7 @@ theorem sound_cat_occ {n : Nat} {F : Mask} (id : Nat) (hn : ∀ k, nameMask L id
         (if a.mask v then (⟨a.mask, fun env => a.f (upd env v (o.1 + env v))⟩ : NT R) else a).f := by
     simp only [partAdj, catPart, agg]
     rw [ef]
-    apply congrFun
-    apply sumM_congr_mask
-    intro k hk
+    refine sumM_congr_mask dv sz (fun k hk => ?_) _
     rw [Bool.eq_iff_iff]
     simp only [Bool.and_eq_true, Bool.not_eq_true']
     constructor
@@ -1697,15 +1695,11 @@ theorem cat_repeated_part_witness :
     (three parts of length 1) and its entry 0 — non-vacuity for the `Cat` case -/
 example : Good ndiv wsz wL 2 (fvMask wL (.sum 0 (.sum 1 (.mul (.cat 1 [(1, 1), (1, 1), (1, 1)]) (.acc 0 [])))))
     (.sum 0 (.sum 1 (.mul (.cat 1 [(1, 1), (1, 1), (1, 1)]) (.acc 0 [])))) := by
-  refine ⟨⟨⟨⟨?_, ?_, by decide⟩, Or.inl rfl⟩, by decide, by decide⟩, by decide, by decide⟩
-  · intro q hq k
-    simp only [List.mem_cons, List.not_mem_nil, or_false, or_self] at hq
-    subst hq
-    simp
-  · intro q hq
-    simp only [List.mem_cons, List.not_mem_nil, or_false, or_self] at hq
-    subst hq
-    decide
+  refine ⟨⟨⟨⟨?_, by decide⟩, Or.inl rfl⟩, by decide, by decide⟩, by decide, by decide⟩
+  intro q hq
+  simp only [List.mem_cons, List.not_mem_nil, or_false, or_self] at hq
+  subst hq
+  decide
 
 example : PtOK wsz wL 1 z0 (.sum 0 (.sum 1 (.mul (.cat 1 [(1, 1), (1, 1), (1, 1)]) (.acc 0 [])))) := by
   refine ⟨?_, ?_⟩
@@ -1718,5 +1712,26 @@ example : PtOK wsz wL 1 z0 (.sum 0 (.sum 1 (.mul (.cat 1 [(1, 1), (1, 1), (1, 1)
     simp at hk
     exact absurd hk hkv
   · intro h; exact absurd h (by decide)
+
+/-- ragged parts: `sum_{0,1} Cat_1(y, d[0,·])`-style — here `Cat_1(y[1], y[1])` next to a part that also
+    has axis 0 is not expressible with `wL` (leaf 0 has length 3 along 1), so: `Cat_1(d, y)` with `d` over
+    (0,1) of length 3 and `y` over (1) of length 3, variable 1 of size 6.  `y` is broadcast over variable
+    0: the expanded message gives `∂/∂y[0] = |var 0| = 2`; the rule before /repo a13826d handed `y` the
+    incoming adjoint unchanged (1). -/
+def wsz6 : Nat → Nat := fun v => if v = 0 then 2 else if v = 1 then 6 else 1
+
+theorem cat_ragged_witness :
+    marginal (cs ndiv) wsz6 wL 2 noF 1
+        (adjoint (cs ndiv) wsz6 wL 2 (.sum 0 (.sum 1 (.cat 1 [(0, 3), (1, 3)]))) 1) z0 = 2 ∧
+      sumM (cs ndiv) wsz6 2 noF
+        (deriv (cs ndiv) wsz6 wL 1 z0 (.sum 0 (.sum 1 (.cat 1 [(0, 3), (1, 3)])))) z0 = 2 ∧
+      (agg (cs ndiv) wsz6 2 noF (nameMask wL 1) (oneNT (cs ndiv))).f z0 = 1 := by
+  decide
+
+example : Good ndiv wsz6 wL 2 noF (.sum 0 (.sum 1 (.cat 1 [(0, 3), (1, 3)]))) := by
+  refine ⟨⟨⟨?_, by decide⟩, by decide, rfl⟩, by decide, rfl⟩
+  intro q hq
+  simp only [List.mem_cons, List.not_mem_nil, or_false] at hq
+  rcases hq with rfl | rfl <;> decide
 
 end FV.Props.C11
